@@ -56,6 +56,13 @@ def readByDimIndex (codec : Option Codec) (o : SegObj) (dims : List (List Nat)) 
     Except ErrKind (List (List (List Nat))) :=
   if ¬ dims.Nodup then .error .runtime else mapE (readDimRow codec o dims) ks
 
+/-! ## source numbers recorded per frame -/
+
+/-- the source numbers the per-frame items name instead of plane indices: `σ p` = index of the source frame / instance
+    recorded for plane `p` (`source_image_index`: the plane index itself for stacks of planes; for a tiled mask the frame of
+    the source image that shows the tile, looked up by position) -/
+def relabelSources (σ : Nat → Nat) (o : SegObj) : SegObj := { o with keys := o.keys.map fun k => (k.1, σ k.2) }
+
 /-! ## tiles of a total pixel matrix -/
 
 /-- where the pixels of tile (k, l) of the grid come from: row-major positions in the `R × C` matrix, `none` = padding
